@@ -462,26 +462,33 @@ class Job:
         self.proc = None
 
     def start(self):
-        json.dump({"tmp": self.tmp, "calls": self.calls, "order": self.order, "history": self.history,
-                   "sched": self.cfg["sched"]}, open(self.jobfile, "w", encoding="utf-8"))
+        # only the calls this worker executes are shipped (results are keyed by call id)
+        sub = [self.calls[k] for k in self.order]
+        with open(self.jobfile, "w", encoding="utf-8") as f:
+            json.dump({"tmp": self.tmp, "calls": sub, "order": list(range(len(sub))), "history": self.history,
+                       "sched": self.cfg["sched"]}, f)
         env = {"PATH": "/usr/bin:/bin", "PYTHONPATH": REPO_SRC, "PYTHONDONTWRITEBYTECODE": "1",
                "PYTHONHASHSEED": str(self.cfg["seed"]), "LANG": self.cfg["lang"], "LC_ALL": self.cfg["lang"],
                "HOME": self.home, "OCTAVE_MCP_SKIP_SYNC": "1"}
         if os.environ.get("C06_SELFTEST"):
             env["C06_SELFTEST"] = os.environ["C06_SELFTEST"]
-        self.proc = subprocess.Popen([PY, os.path.abspath(__file__), "--worker", self.jobfile, self.outfile],
-                                     cwd=self.cfg["cwd"], env=env, stdout=subprocess.PIPE, stderr=subprocess.PIPE)
+        self.errfile = os.path.join(self.dir, "stderr.txt")
+        with open(self.errfile, "wb") as ef:
+            self.proc = subprocess.Popen([PY, os.path.abspath(__file__), "--worker", self.jobfile, self.outfile],
+                                         cwd=self.cfg["cwd"], env=env, stdout=subprocess.DEVNULL, stderr=ef)
 
     def finish(self):
         try:
-            so, se = self.proc.communicate(timeout=900)
+            self.proc.wait(timeout=1500)
         except subprocess.TimeoutExpired:
             self.proc.kill()
-            so, se = self.proc.communicate()
+            self.proc.wait()
             raise RuntimeError(f"worker {self.name} timed out")
         if self.proc.returncode != 0 or not os.path.exists(self.outfile):
-            raise RuntimeError(f"worker {self.name} failed rc={self.proc.returncode}: {se.decode('utf-8', 'replace')[-800:]}")
-        d = json.load(open(self.outfile, encoding="utf-8"))
+            se = open(self.errfile, "rb").read().decode("utf-8", "replace")
+            raise RuntimeError(f"worker {self.name} failed rc={self.proc.returncode}: {se[-800:]}")
+        with open(self.outfile, encoding="utf-8") as f:
+            d = json.load(f)
         return d["results"], d["meta"]
 
 
@@ -495,8 +502,14 @@ def run_jobs(jobs, par=16):
             j = pending.pop(0)
             j.start()
             running.append(j)
-        j = running.pop(0)
-        out[j.name] = j.finish()
+        done = [j for j in running if j.proc.poll() is not None]
+        if not done:
+            time.sleep(0.02)
+            continue
+        for j in done:
+            running.remove(j)
+            out[j.name] = j.finish()
+            shutil.rmtree(j.dir, ignore_errors=True)
     return out
 
 
